@@ -3159,6 +3159,13 @@ class Mailbox:
 
         mbox_match = ref_mbox_name + mbox_match
 
+        # The name INBOX is case-insensitive also where it is the first level
+        # of a name: the children of the inbox are stored as `inbox/...`
+        #
+        top, delimiter, rest = mbox_match.partition("/")
+        if delimiter and top.lower() == "inbox":
+            mbox_match = "inbox" + delimiter + rest
+
         # Escape regex metacharacters, then convert IMAP wildcards.
         #
         mbox_match = "^" + re.escape(mbox_match) + "$"
